@@ -715,7 +715,7 @@ Section StepProofs.
         * eapply linv_same; [|apply (h_destroy_ok hs L1 _ (or_intror Hwfs) HL3)].
           intro e. unfold owned. cbn [regs queue flat_map]. rewrite ?r_own_pair. cbn [holder_of]. rewrite !count_occ_app. lia.
       + unfold abs at 2. rewrite Eq. cbn [squeue map]. destruct (logical h) as [t0 v0] eqn:El.
-        unfold abs. cbn [regs queue trace map_snd map fst snd abs_r sregs strace]. rewrite Hlog, El. reflexivity.
+        unfold abs. cbn [regs queue trace map_snd map fst snd abs_r sregs strace]. rewrite Hlog. reflexivity.
     - (* Ledger *)
       unfold abs at 2. cbn [sregs]. rewrite existsb_moved_abs.
       destruct (existsb is_moved (regs s)) eqn:Em.
@@ -736,3 +736,209 @@ Section StepProofs.
     split; [exact HI''|]. rewrite Ha', Ha. reflexivity.
   Qed.
 End StepProofs.
+
+(* ------------------------------------------------------------------------------------ *)
+(* 5. the end of the case and the C17 theorems *)
+
+Lemma regs_holders_wf : forall l, Forall r_wf l ->
+  Forall (fun h => wf_live h \/ wf_shell h) (map (fun p => holder_of (snd p)) l).
+Proof.
+  intros l HF. induction HF as [|[k x] l Hp HF IH]; simpl; constructor; [|exact IH].
+  unfold r_wf in Hp. simpl in Hp. destruct x; simpl; [left; apply Hp | right; exact Hp].
+Qed.
+
+Lemma flat_map_holders : forall l, flat_map h_own (map (fun p => holder_of (snd p)) l) = flat_map r_own l.
+Proof. induction l as [|p l IH]; simpl; [reflexivity | rewrite IH; reflexivity]. Qed.
+
+Lemma wf_live_or_shell : forall q, Forall wf_live q -> Forall (fun h => wf_live h \/ wf_shell h) q.
+Proof. intros q HF. induction HF; constructor; auto. Qed.
+
+Lemma linv_nil_live : forall L, linv L [] -> live L = [].
+Proof.
+  intros L [H1 _ _ _]. apply (count_occ_inv_nil lent_dec). intro e. rewrite <- H1. reflexivity.
+Qed.
+
+Section Top.
+  Variables (cap ls : N) (tracked : nat -> bool).
+
+  Lemma finish_linv : forall s, Inv s -> linv (led (finish tracked s)) [].
+  Proof.
+    intros s [HR HQ HL]. unfold finish. cbn [led].
+    apply destroy_all_ok with (rest := []); [apply wf_live_or_shell; exact HQ|]. rewrite app_nil_r.
+    apply destroy_all_ok; [apply regs_holders_wf; exact HR|]. rewrite flat_map_holders. exact HL.
+  Qed.
+
+  Lemma finish_trace : forall s, Inv s -> trace (finish tracked s) = trace s ++ [ELedger 0].
+  Proof.
+    intros s HI. pose proof (linv_nil_live _ (finish_linv s HI)) as Hl.
+    unfold finish in *. cbn [trace led] in *. unfold l_count. rewrite Hl. reflexivity.
+  Qed.
+
+  Lemma run_app : forall s p q, run cap ls tracked s (p ++ q) = run cap ls tracked (run cap ls tracked s p) q.
+  Proof. intros. unfold run. apply fold_left_app. Qed.
+
+  Lemma s_run_app : forall s p q, s_run tracked s (p ++ q) = s_run tracked (s_run tracked s p) q.
+  Proof. intros. unfold s_run. apply fold_left_app. Qed.
+
+  Lemma run_Inv : forall p, Inv (run cap ls tracked init p).
+  Proof. intro p. apply (run_refines cap ls tracked p init Inv_init). Qed.
+
+  Lemma run_abs : forall p, abs (run cap ls tracked init p) = s_run tracked s_init p.
+  Proof. intro p. rewrite <- abs_init. apply (run_refines cap ls tracked p init Inv_init). Qed.
+
+  (* the whole observable trace is the trace of the value-semantics specification *)
+  Theorem anydata_refines_value_semantics : forall p,
+    map erase (run_case cap ls tracked p) = s_run_case tracked p.
+  Proof.
+    intro p. unfold run_case, final, s_run_case.
+    pose proof (run_Inv p) as HI.
+    rewrite (li_err _ _ (finish_linv _ HI)). rewrite (finish_trace _ HI).
+    rewrite map_app. cbn [map erase]. rewrite <- (run_abs p). reflexivity.
+  Qed.
+
+  Theorem anydata_once : forall p,
+    let s := run cap ls tracked init p in
+    let f := final cap ls tracked p in
+    (err (led s) = false /\
+     NoDup (map fst (live (led s)) ++ dead (led s)) /\
+     (forall x, In x (map fst (live (led s)) ++ dead (led s)) <-> x < next (led s)) /\
+     Permutation (owned s) (live (led s))) /\
+    (err (led f) = false /\ live (led f) = [] /\ NoDup (dead (led f)) /\
+     (forall x, In x (dead (led f)) <-> x < next (led f))).
+  Proof.
+    intros p s f. pose proof (run_Inv p) as HI. fold s in HI.
+    split.
+    - destruct (inv_led _ HI) as [H1 H2 H3 H4]. repeat split; auto.
+      + apply H3.
+      + apply H3.
+      + apply (Permutation_count_occ lent_dec). exact H1.
+    - pose proof (finish_linv s HI) as HF. fold (final cap ls tracked p) in HF. fold f in HF.
+      pose proof (linv_nil_live _ HF) as Hl. destruct HF as [H1 H2 H3 H4].
+      rewrite Hl in H2, H3. simpl in H2, H3. auto.
+  Qed.
+
+  Lemma abs_reg_live : forall s r t0 v0, get_reg r (sregs (abs s)) = Some (SLive t0 v0) ->
+    exists h a0, get_reg r (regs s) = Some (RLive h a0) /\ logical h = (t0, v0).
+  Proof.
+    intros s r t0 v0 H. rewrite abs_get in H. destruct (get_reg r (regs s)) as [[h a0|h]|]; simpl in H; try discriminate.
+    inversion H. exists h, a0. split; [reflexivity|]. apply surjective_pairing.
+  Qed.
+
+  (* isType<T>() is true exactly for the stored type, after every history *)
+  Theorem anydata_istype : forall p r t0 v0 t,
+    get_reg r (sregs (s_run tracked s_init p)) = Some (SLive t0 v0) ->
+    exists b, trace (run cap ls tracked init (p ++ [IsType r t])) = trace (run cap ls tracked init p) ++ [EIsType b]
+              /\ (b = true <-> t = t0).
+  Proof.
+    intros p r t0 v0 t H. rewrite <- run_abs in H.
+    destruct (abs_reg_live _ _ _ _ H) as (h & a0 & Eg & Hlog).
+    pose proof (run_Inv p) as HI.
+    destruct (get_reg_Forall _ _ _ _ _ (inv_regs _ HI) Eg) as [Hwf _].
+    exists (t =? t0). split; [|apply Nat.eqb_eq].
+    rewrite run_app. cbn [run fold_left step]. rewrite Eg. unfold emit. cbn [trace].
+    rewrite (h_is_type_ok h t Hwf), Hlog. reflexivity.
+  Qed.
+
+  (* reading back what was stored, through any accessor, at a stable address *)
+  Theorem anydata_roundtrip : forall p r t sz v t',
+    get_reg r (regs (run cap ls tracked init p)) = None ->
+    map erase (trace (run cap ls tracked init (p ++ [Make r t sz v; Get r; Addr r; IsType r t']))) =
+    map erase (trace (run cap ls tracked init p)) ++ [EGet v; EAddr true; EIsType (t' =? t)].
+  Proof.
+    intros p r t sz v t' Hn.
+    change (map erase (trace (run cap ls tracked init (p ++ [Make r t sz v; Get r; Addr r; IsType r t']))))
+      with (strace (abs (run cap ls tracked init (p ++ [Make r t sz v; Get r; Addr r; IsType r t'])))).
+    change (map erase (trace (run cap ls tracked init p))) with (strace (abs (run cap ls tracked init p))).
+    rewrite !run_abs, s_run_app.
+    assert (Hs : get_reg r (sregs (s_run tracked s_init p)) = None).
+    { rewrite <- run_abs, abs_get, Hn. reflexivity. }
+    destruct (s_run tracked s_init p) as [sr sq st]. cbn [sregs] in Hs.
+    cbn [s_run fold_left s_step sregs squeue strace]. rewrite Hs.
+    cbn [s_run fold_left s_step sregs squeue strace get_reg]. rewrite Nat.eqb_refl.
+    cbn [s_emit sregs squeue strace get_reg]. rewrite Nat.eqb_refl.
+    cbn [s_emit sregs squeue strace get_reg]. rewrite Nat.eqb_refl.
+    cbn [s_emit sregs squeue strace]. rewrite <- !app_assoc. reflexivity.
+  Qed.
+End Top.
+
+(* chains of moves and queue round trips *)
+Inductive hop := HMove | HQueue.
+
+Fixpoint chain (r : nat) (hs : list hop) : list cmd :=
+  match hs with
+  | [] => []
+  | HMove :: hs' => Move r (S r) :: chain (S r) hs'
+  | HQueue :: hs' => Enqueue r :: Take (S r) :: chain (S r) hs'
+  end.
+
+Lemma s_chain : forall tracked hops r sr tr t v rest,
+  get_reg r sr = Some (SLive t v) -> (forall k, r < k -> get_reg k sr = None) ->
+  exists sr', s_run tracked (mkSS sr [] tr) (chain r hops ++ rest) = s_run tracked (mkSS sr' [] tr) rest /\
+              get_reg (r + length hops) sr' = Some (SLive t v) /\
+              (forall k, r + length hops < k -> get_reg k sr' = None).
+Proof.
+  intros tracked hops. induction hops as [|h hops IH]; intros r sr tr t v rest Hr Hfree.
+  - exists sr. simpl. rewrite Nat.add_0_r. auto.
+  - assert (Hn : get_reg (S r) sr = None) by (apply Hfree; lia).
+    destruct h; cbn [chain app s_run fold_left s_step sregs squeue strace].
+    + rewrite Hr, Hn.
+      destruct (IH (S r) ((S r, SLive t v) :: (r, SMoved) :: del_reg r sr) tr t v rest) as (sr' & E & Hg & Hf).
+      * cbn [get_reg]. rewrite Nat.eqb_refl. reflexivity.
+      * intros k Hk. cbn [get_reg]. destruct (Nat.eqb_spec (S r) k); [lia|]. destruct (Nat.eqb_spec r k); [lia|].
+        rewrite get_reg_del_other by lia. apply Hfree. lia.
+      * exists sr'. cbn [length]. rewrite Nat.add_succ_r. simpl in Hg, Hf. split; [exact E | split; [exact Hg | exact Hf]].
+    + rewrite Hr. cbn [sregs squeue strace app get_reg].
+      destruct (Nat.eqb_spec r (S r)); [lia|]. rewrite get_reg_del_other by lia. rewrite Hn.
+      destruct (IH (S r) ((S r, SLive t v) :: (r, SMoved) :: del_reg r sr) tr t v rest) as (sr' & E & Hg & Hf).
+      * cbn [get_reg]. rewrite Nat.eqb_refl. reflexivity.
+      * intros k Hk. cbn [get_reg]. destruct (Nat.eqb_spec (S r) k); [lia|]. destruct (Nat.eqb_spec r k); [lia|].
+        rewrite get_reg_del_other by lia. apply Hfree. lia.
+      * exists sr'. cbn [length]. rewrite Nat.add_succ_r. simpl in Hg, Hf. split; [exact E | split; [exact Hg | exact Hf]].
+Qed.
+
+Theorem anydata_move_chain : forall cap ls tracked t sz v hops t',
+  map erase (run_case cap ls tracked
+     (Make 0 t sz v :: chain 0 hops ++ [Get (length hops); IsType (length hops) t'; Addr (length hops)]))
+  = [EGet v; EIsType (t' =? t); EAddr true; ELedger 0]
+  /\
+  map erase (run_case cap ls tracked (Make 0 t sz v :: chain 0 hops ++ [Enqueue (length hops); Process]))
+  = [EDeliver true v; ELedger 0].
+Proof.
+  intros cap ls tracked t sz v hops t'. rewrite !anydata_refines_value_semantics. unfold s_run_case.
+  split.
+  - cbn [s_run fold_left s_step s_init sregs squeue strace get_reg].
+    destruct (s_chain tracked hops 0 [(0, SLive t v)] [] t v
+                [Get (length hops); IsType (length hops) t'; Addr (length hops)]) as (sr' & E & Hg & _).
+    + reflexivity.
+    + intros k Hk. destruct k; [lia | reflexivity].
+    + unfold s_run in E. rewrite E. simpl in Hg.
+      cbn [fold_left s_step sregs squeue strace]. rewrite Hg.
+      cbn [s_emit sregs squeue strace]. rewrite Hg.
+      cbn [s_emit sregs squeue strace]. rewrite Hg. reflexivity.
+  - cbn [s_run fold_left s_step s_init sregs squeue strace get_reg].
+    destruct (s_chain tracked hops 0 [(0, SLive t v)] [] t v [Enqueue (length hops); Process]) as (sr' & E & Hg & _).
+    + reflexivity.
+    + intros k Hk. destruct k; [lia | reflexivity].
+    + unfold s_run in E. rewrite E. simpl in Hg.
+      cbn [fold_left s_step sregs squeue strace]. rewrite Hg. reflexivity.
+Qed.
+
+(* sizes and capacities are unobservable *)
+Inductive reshape : cmd -> cmd -> Prop :=
+| RS_make : forall r t sz sz' v, reshape (Make r t sz v) (Make r t sz' v)
+| RS_qmake : forall t sz sz' v, reshape (QMake t sz v) (QMake t sz' v)
+| RS_same : forall c, reshape c c.
+
+Lemma s_run_reshape : forall tracked p p' ss, Forall2 reshape p p' -> s_run tracked ss p = s_run tracked ss p'.
+Proof.
+  intros tracked p p' ss HF. revert ss. induction HF as [|c c' p p' Hc HF IH]; intro ss; [reflexivity|].
+  simpl. assert (Hs : s_step tracked ss c = s_step tracked ss c') by (destruct Hc; reflexivity).
+  rewrite Hs. apply IH.
+Qed.
+
+Theorem size_uniform : forall cap cap' ls ls' tracked p p', Forall2 reshape p p' ->
+  map erase (run_case cap ls tracked p) = map erase (run_case cap' ls' tracked p').
+Proof.
+  intros. rewrite !anydata_refines_value_semantics. unfold s_run_case.
+  rewrite (s_run_reshape tracked p p' s_init H). reflexivity.
+Qed.
